@@ -19,11 +19,11 @@ EXPLANATION = (
 
 def run(ctx):
     repo = ctx.repo
-    r06a(ctx, repo)
-    r06b(ctx, repo)
-    r06c(ctx, repo)
-    r06d(ctx, repo)
-    r06e(ctx, repo)
+    ctx.each(r06a, ctx, repo)
+    ctx.each(r06b, ctx, repo)
+    ctx.each(r06c, ctx, repo)
+    ctx.each(r06d, ctx, repo)
+    ctx.each(r06e, ctx, repo)
 
 
 def _ids(cfg, stmts):
